@@ -264,6 +264,10 @@ func init() {
 					}
 				}
 			}
+			// a metric over its limit (no GC pass yet) is reloaded: every label set is carried over
+			for _, pr := range [][2]int{{23, 24}, {24, 23}, {23, 23}} {
+				emit([]string{fmt.Sprintf("w:a.mtail:%d", pr[0]), "load", "l:x", "l:y", "l:z", "l:y", fmt.Sprintf("w:a.mtail:%d", pr[1]), "load", "l:z", "l:w", "load"})
+			}
 			// unload and load again (same and different contents)
 			for _, a := range []int{0, 1, 10} {
 				for _, b := range []int{0, 1, 2} {
